@@ -63,7 +63,8 @@ RE(e, ctx) ==
     [] e.k = "bin"  -> LET p == Prec(e.op)
                            s == RE(e.l, p) \o " " \o e.op \o " " \o RE(e.r, p + 1)
                        IN IF p < ctx THEN "(" \o s \o ")" ELSE s
-    [] e.k = "ife"  -> LET s == "if " \o RE(e.c, 0) \o " { " \o RE(e.t, 0) \o " } else { " \o RE(e.e, 0) \o " }"
+    [] e.k = "ife"  -> LET br(b) == IF b.k = "blk" THEN RInlineSS(b.ss) ELSE RE(b, 0)      \* a block branch needs no second pair of braces
+                           s == "if " \o RE(e.c, 0) \o " { " \o br(e.t) \o " } else { " \o br(e.e) \o " }"
                        IN IF ctx > 0 THEN "(" \o s \o ")" ELSE s
     [] e.k = "blk"  -> "{ " \o RInlineSS(e.ss) \o " }"
     [] e.k = "tup"  -> "(" \o JoinS(REs(e.es), ", ") \o ")"
